@@ -23,7 +23,9 @@ CONSTANTS MaxTx,            \* top-level calls per history (after the genesis)
           Fuel,             \* contract invocations per transaction
           Genesis,          \* sequence of [call, sc]: setup replayed before everything else
           CallMenu(_, _, _),   \* (root, codes, ntx) -> set of calls offered
-          BehMenu(_, _, _)     \* (info, fuelLeft, cur) -> set of behaviours offered
+          BehMenu(_, _, _),    \* (info, fuelLeft, cur) -> set of behaviours offered
+          Stock                \* TRUE: the replay plugs the library's own AcceptingModule / FailingModule / StargateAccepting /
+                               \* StargateFailing into the accepting and failing slots (behind the recording fronts)
 
 VARIABLES root, codes, block, cur, last, hist, ntx
 
@@ -185,6 +187,7 @@ Script ==
       codes   |-> last.codes,
       block   |-> last.block,
       mods    |-> Mods,
+      stock   |-> Stock,
       addrmode |-> AddrMode ]
 
 Emit == last.on => PrintT(ToJson(Script))
